@@ -213,6 +213,23 @@ pub fn gen_program(rng: &mut Rng, tier: Tier) -> Program {
     Program { init, order, ops }
 }
 
+/// Does the operation name the null dart (as an argument or as a spare dart)? Dart 0 and the
+/// slots stored under it are a sink every thread can write to (unlinking a free dart writes
+/// beta0(0); a sew of darts without successors looks up the vertex of dart 0), so a program that
+/// works on dart 0 is not "on a component nobody else can reach".
+fn mentions_null(op: &Op) -> bool {
+    let v = serde_json::to_value(op).unwrap();
+    fn walk(v: &serde_json::Value, key: &str) -> bool {
+        match v {
+            serde_json::Value::Object(m) => m.iter().any(|(k, x)| walk(x, k)),
+            serde_json::Value::Array(a) => matches!(key, "nd") && a.iter().any(|x| x.as_u64() == Some(0)),
+            serde_json::Value::Number(n) => matches!(key, "l" | "r" | "d" | "e" | "f" | "id" | "vid") && n.as_u64() == Some(0),
+            _ => false,
+        }
+    }
+    walk(&v, "")
+}
+
 /// Main dart argument of an operation (what it is "about").
 fn principal(op: &Op) -> Option<u32> {
     Some(match op {
@@ -380,7 +397,7 @@ fn run_one(tier: Tier, i: u64, seed: u64, c: &mut Counters, known: &std::collect
                 push(c, class, msg, Payload { program: (*prog).clone(), leg: "composed".into(), f2: vec![], noise: vec![], sched: None });
             } else if let Some((class, msg)) = judge(&seq, &rv, &rfin, "reexecuted") {
                 push(c, class, msg, Payload { program: (*prog).clone(), leg: "reexec".into(), f2: f2.clone(), noise: vec![], sched: None });
-            } else if comp_ok && rng.chance(0.5) {
+            } else if comp_ok && rng.chance(0.5) && !prog.ops.iter().any(mentions_null) {
                 // (b'') the composed block next to a noise thread on a disjoint component
                 let (q, first) = with_noise_component(&prog);
                 let noise = gen_noise(&mut rng, first, q.init.dim);
@@ -542,6 +559,9 @@ fn reproduces(p: &Payload) -> Option<(String, String)> {
             }
         }
         _ => {
+            if p.program.ops.iter().any(mentions_null) {
+                return None;
+            }
             let p2 = p.clone();
             let r = execute_serial(move || run_composed(&p2.program, &[]));
             let Outcome::Done((cv, cfin, _)) = r.outcome else { return None };
